@@ -19,6 +19,23 @@ namespace C06
 open Value
 variable {nfc : String → Bool}
 
+/-! ## the judge: what the driver's `wf` verb prints is decided by `Value.WF` itself -/
+
+/-- the harness reads `pass` exactly when the predicate of these theorems holds of the dumped value -/
+theorem verdict_pass_iff (v : Value) : v.wfVerdict nfc = "pass" ↔ v.WF nfc = true := by
+  unfold Value.wfVerdict
+  split
+  · simp [*]
+  · rename_i h
+    constructor
+    · intro he
+      have := congrArg String.length he
+      simp [String.length_append] at this
+      have h5 : "fail ".length = 5 := by decide
+      have h4 : "pass".length = 4 := by decide
+      omega
+    · intro h'; exact absurd h' h
+
 /-! ## constructors (cty/value_init.go) -/
 
 /-- `BoolVal`, `True`, `False`: a bool payload under the bool type. -/
